@@ -31,6 +31,8 @@ enum Split {
     Unsplit,
     Cuts(Vec<usize>),
     Bytewise,
+    /// as Cuts, with ten minutes of (virtual) silence between the segments
+    CutsPaused(Vec<usize>),
 }
 
 #[derive(Clone, Debug)]
@@ -88,6 +90,14 @@ fn items(tier: Tier) -> &'static Vec<Item> {
                 }
             }
             v.push(Item { conv: ci, split: Split::Bytewise });
+            {
+                // pauses: ten virtual minutes of silence at every CRLF / buffer-boundary offset
+                let io = interesting_offsets(&c.bytes);
+                let io: Vec<usize> = if io.len() > 40 && !deep(tier) { io.iter().step_by(io.len() / 40 + 1).copied().collect() } else { io };
+                for k in io {
+                    v.push(Item { conv: ci, split: Split::CutsPaused(vec![k]) });
+                }
+            }
             if deep(tier) && n > 120 && n <= 200 {
                 for a in 1..n {
                     for b in a + 1..n {
@@ -178,15 +188,29 @@ fn baseline(ci: usize, acc: &mut Acc) -> String {
 fn segments_of(c: &Conv, split: &Split) -> Vec<Vec<u8>> {
     match split {
         Split::Unsplit => vec![c.bytes.clone()],
-        Split::Cuts(cuts) => split_at(&c.bytes, cuts),
+        Split::Cuts(cuts) | Split::CutsPaused(cuts) => split_at(&c.bytes, cuts),
         Split::Bytewise => c.bytes.iter().map(|b| vec![*b]).collect(),
     }
+}
+
+/// inserts the silence of a CutsPaused split: after every segment but the last one
+fn paused(mut sc: Scenario, split: &Split) -> Scenario {
+    if let Split::CutsPaused(_) = split {
+        let sends: Vec<usize> = sc.script.iter().enumerate().filter(|(_, s)| matches!(s.1, Step::Send(_))).map(|(i, _)| i).collect();
+        for &i in sends.iter().rev().skip(1) {
+            // script[i] = Send, script[i + 1] = Settle
+            let conn = sc.script[i].0;
+            sc.script.insert(i + 2, (conn, Step::SleepMs(600_000)));
+            sc.script.insert(i + 3, (conn, Step::Settle));
+        }
+    }
+    sc
 }
 
 fn run_one(ci: usize, split: &Split, acc: &mut Acc) {
     let c = &the_corpus()[ci];
     let base = baseline(ci, acc);
-    let sc = scenario_for(c, segments_of(c, split));
+    let sc = paused(scenario_for(c, segments_of(c, split)), split);
     let (o, r) = run_scenario(&sc, &RunCfg::default());
     account_run(acc, &r);
     acc.evals += 1;
@@ -204,6 +228,7 @@ fn run_one(ci: usize, split: &Split, acc: &mut Acc) {
         Split::Unsplit => json!("unsplit"),
         Split::Bytewise => json!("bytewise"),
         Split::Cuts(c) => json!(c),
+        Split::CutsPaused(c) => json!({"cuts": c, "pause_ms": 600_000}),
     };
     if got != base {
         // first differing line, for the explanation
@@ -243,7 +268,7 @@ impl Check for C13 {
     fn rule(&self, tier: Tier) -> String {
         let c = the_corpus();
         format!(
-            "corpus of {} conversations ({} bytes total; every framing kind, every C10/C16 error class, 100-continue, pipelines, unread bodies, raw writer, deferred answers, 6 conversations crossing the 1024-byte buffers): for each the unsplit delivery, every single split point{}, one-byte-at-a-time delivery, and every pair of split points for conversations <= {} bytes{}; each read returns exactly one segment and the server is quiescent between segments; {} runs; oracle: delivered heads/bodies, responses modulo Date and end-of-stream identical to the unsplit run; non-trivial = any split run",
+            "corpus of {} conversations ({} bytes total; every framing kind, every C10/C16 error class, 100-continue, pipelines, unread bodies, raw writer, deferred answers, 6 conversations crossing the 1024-byte buffers): for each the unsplit delivery, every single split point{}, one-byte-at-a-time delivery, a split with TEN MINUTES of virtual silence at every CRLF / buffer-boundary offset, and every pair of split points for conversations <= {} bytes{}; each read returns exactly one segment and the server is quiescent between segments; {} runs; oracle: delivered heads/bodies, responses modulo Date and end-of-stream identical to the unsplit run; non-trivial = any split run",
             c.len(), c.iter().map(|x| x.bytes.len()).sum::<usize>(),
             if !full(tier) { " (long conversations: around CRLFs and the 1024/2048 offsets)" } else { "" },
             if !full(tier) { 60 } else { 120 },
@@ -252,7 +277,10 @@ impl Check for C13 {
         )
     }
     fn assumptions(&self) -> Vec<String> {
-        vec!["'random multi-way splits' of the quantifier are replaced by the exhaustive sets above (nothing is sampled)".into()]
+        vec![
+            "'random multi-way splits' of the quantifier are replaced by the exhaustive sets above (nothing is sampled)".into(),
+            "pauses: virtual ones (10 min) in the in-memory runs, where only timers of tiny-http itself could notice them; kernel-level socket timeouts are looked for by the thorough tier's replay of 10 conversations over TCP and UNIX sockets with a real silence of 65 s (evidence/conformance-pauses.json)".into(),
+        ]
     }
     fn replay(&self, replay: &Value, acc: &mut Acc) {
         let name = replay["conversation"].as_str().unwrap_or("");
@@ -266,11 +294,12 @@ impl Check for C13 {
         let split = match &replay["split"] {
             Value::String(s) if s == "bytewise" => Split::Bytewise,
             Value::Array(a) => Split::Cuts(a.iter().map(|x| x.as_u64().unwrap_or(1) as usize).collect()),
+            Value::Object(o) => Split::CutsPaused(o["cuts"].as_array().map(|a| a.iter().map(|x| x.as_u64().unwrap_or(1) as usize).collect()).unwrap_or_default()),
             _ => Split::Unsplit,
         };
         let c = &the_corpus()[ci];
         let b = baseline(ci, acc);
-        let sc = scenario_for(c, segments_of(c, &split));
+        let sc = paused(scenario_for(c, segments_of(c, &split)), &split);
         let (o, r) = run_scenario(&sc, &RunCfg::default());
         acc.notes.insert(format!("---- unsplit ----\n{}---- split {:?} ----\n{}", b, split, canon(&o, &r)));
         run_one(ci, &split, acc);
